@@ -30,6 +30,8 @@ def run(ctx, prop):
         case = vlib.nth_line(rec, f["index"])
         for reason in f["reasons"]:
             facts = {"reason": reason, "lang": case.get("lang", "JavaScript"), "mode": case["mode"]}
+            if isinstance(reason, str) and reason.startswith("known:"):
+                facts["scenario"] = reason[6:]
             if case["mode"] == "rewrite":
                 slim = {k: case.get(k) for k in ("id", "text", "order", "join", "cs", "ce", "cands")}
                 slim["out"] = bytes(case["out"]).decode("utf8", "replace")
